@@ -14,7 +14,7 @@ RULE = ('Evaluation = one (scene, bijectively renamed scene) pair run through th
         'Non-trivial = >= 2 ceilometers; distinct = hash of (rows, parameters, mapping).')
 ASSUMPTIONS = ['names are non-empty distinct strings']
 REQUIRED = ['order_reversing', 'substring_names', 'regex_like_names', 'numeric_string_names', 'exclusion_mapped',
-            'exclusion_fallback', 'lookback_lt100_coincident', 'permutation_of_same_names', 'exclusion_entry_absent_but_similar', 'tie_at_cut_between_instruments']
+            'exclusion_fallback', 'lookback_lt100_coincident', 'permutation_of_same_names', 'exclusion_entry_absent_but_similar', 'tie_at_cut_between_instruments', 'instrument_vanishes_in_the_crop']
 SIZES = {'quick': 420, 'thorough': 8000}
 TARGETS = [
     ('numeric_string_names', ['9', '10', '11', '100', '2', '1', '20', '3']),
@@ -49,6 +49,20 @@ def check(desc):
             prm['call']['EXCLUDE_FOR_BASE_HEIGHT_CALC'] = [n for n in sc['names'] if rng.uniform() < 0.5]
         if i % 4 == 1:
             prm['call']['BASE_LVL_LOOKBACK_PERC'] = float(rng.choice([50, 30, 10]))
+    if i % 7 == 4 and len(set(r[0] for r in sc['rows'])) >= 2:
+        # an instrument that vanishes from the chunk: only hits of type >= 2, all above MSA + buffer (legal, warn-only)
+        hs_ = scenes.heights_of(sc)
+        top = float(hs_.max()) if len(hs_) else 1000.0
+        vname = ['m-vanish', 'a-vanish', 'z-vanish'][i % 3]
+        sc['rows'] = sc['rows'] + [[vname, -11.0 * t_ - 0.37, top + 5000.0 + 10 * t_, 2] for t_ in range(4)]
+        sc['names'] = list(sc['names']) + [vname]
+        prm['call']['MSA'] = top + 100.0
+        prm['call']['MSA_HIT_BUFFER'] = 1000.0
+        present = sorted(set(r[0] for r in sc['rows']) - {vname})
+        prm['call']['EXCLUDE_FOR_BASE_HEIGHT_CALC'] = [present[int(rng.integers(len(present)))]]
+        vanish = True
+    else:
+        vanish = False
     if i % 5 == 2:
         # an exclusion entry that names no instrument of the chunk but equals one up to case / blanks
         present = sorted(set(r[0] for r in sc['rows']))
@@ -122,6 +136,8 @@ def check(desc):
             tags.add('lookback_lt100_coincident')
     if sc.get('fam') == 'tiecut':
         tags.add('tie_at_cut_between_instruments')
+    if vanish:
+        tags.add('instrument_vanishes_in_the_crop')
     res['tags'] = sorted(tags)
     res['case'] = {'scene': sc, 'prm': prm, 'mapping': mp}
     if desc['i'] % 37 == 0:
